@@ -2,10 +2,12 @@ import Bmc.Driver.Prim
 import Bmc.Driver.DecBasic
 import Bmc.Driver.DecCore
 import Bmc.Driver.DecSess
+import Bmc.Driver.DecDcmi
 import Bmc.Driver.Rt
+import Bmc.Driver.Send
 open Bmc.Driver
 
-def decTables : List (String × DecFn) := decTableBasic ++ decTableCore ++ decTableSess
+def decTables : List (String × DecFn) := decTableBasic ++ decTableCore ++ decTableSess ++ decTableDcmi
 
 def evalDec (args : List String) : String :=
   match args with
@@ -23,6 +25,7 @@ def step (line : String) : String :=
   | id :: _cls :: "str" :: args => s!"{id} {evalStr args}"
   | id :: _cls :: "dec" :: args => s!"{id} {evalDec args}"
   | id :: _cls :: "rt" :: args => s!"{id} {evalRt args}"
+  | id :: _cls :: "send" :: args => s!"{id} {evalSend args}"
   | id :: _ => s!"{id} bad-op"
   | [] => ""
 
